@@ -71,7 +71,7 @@ def shrink(case, still_fails, budget=60):
 
 
 def run_cases(chk, cases, oracle_sig='trace-differs-from-source-semantics', do_gen=True,
-              do_vm=True, do_sem=True, do_wf=False, stats=None, slack=0, sem_filter=None):
+              do_vm=True, do_sem=True, do_wf=False, stats=None, slack=1, sem_filter=None):
     """returns per-case dicts; fills chk with violations / disagreements / counts"""
     stats = stats if stats is not None else {}
     for k in ('cases', 'rejected_by_compiler', 'timeouts', 'impl_faults', 'uninterpreted',
